@@ -140,6 +140,8 @@ type Kernel struct {
 	sc  *Scenario
 	Dir string
 
+	mutSeen, mutDone int // MutateSpec: qualifying yields seen / writes done
+
 	inbox chan arrival
 	free  atomic.Bool
 	step  atomic.Int64
@@ -578,6 +580,27 @@ func (k *Kernel) accept(a *arrival) {
 		_ = os.RemoveAll(k.Dir)
 		k.logf("repository removed at yield %d (%s)", g.proc.yields, a.point)
 		k.Stats.fault("repository-removed")
+	}
+	if mu := k.sc.Mutate; mu != nil && g.proc.idx == 0 && mu.Every > 0 && (mu.Mode == "touch" || strings.HasPrefix(a.point, "load.")) {
+		k.mutSeen++
+		if k.mutSeen%mu.Every == 0 && (mu.Max == 0 || k.mutDone < mu.Max) {
+			p := filepath.Join(k.Dir, mu.File)
+			switch mu.Mode {
+			case "touch":
+				ts := time.Date(2001, 1, 1, 0, 0, 0, 0, time.UTC).Add(time.Duration(k.mutDone+1) * time.Second)
+				if os.Chtimes(p, ts, ts) == nil {
+					k.mutDone++
+					k.Stats.fault("file-touched-under-reader")
+				}
+			case "append":
+				if f, err := os.OpenFile(p, os.O_WRONLY|os.O_APPEND, 0); err == nil {
+					_, _ = f.WriteString(mu.Line)
+					_ = f.Close()
+					k.mutDone++
+					k.Stats.fault("file-appended-under-reader")
+				}
+			}
+		}
 	}
 	// scenario-level cancellation (a simulated signal) keyed to the process's
 	// own progress, so that it survives schedule minimisation
